@@ -88,6 +88,27 @@ def _ops():
         "reject": (2, False, lambda v, k: ar.reject_cartesian_vector(v[0], v[1]),
                    lambda m, k: f"reject {m[0]} {m[1]}",
                    lambda m, lens: f"dot {m[1]} {m[1]} <> 0" if lens[1] else None, "vec"),
+        # the SAME Vector object in several argument positions
+        "add_same": (1, False, lambda v, k: ar.add_cartesian_vectors(v[0], v[0]),
+                     lambda m, k: f"vadd {m[0]} {m[0]}", None, "vec"),
+        "add3_same": (1, False, lambda v, k: ar.add_cartesian_vectors(v[0], v[0], v[0]),
+                      lambda m, k: f"vsum {m[0]} [{m[0]}; {m[0]}]", None, "vec"),
+        "add_aba": (2, False, lambda v, k: ar.add_cartesian_vectors(v[0], v[1], v[0]),
+                    lambda m, k: f"vsum {m[0]} [{m[1]}; {m[0]}]", None, "vec"),
+        "sub_same": (1, False, lambda v, k: ar.subtract_cartesian_vectors(v[0], v[0]),
+                     lambda m, k: f"vsub {m[0]} {m[0]}", None, "vec"),
+        "sub_abb": (2, False, lambda v, k: ar.subtract_cartesian_vectors(v[0], v[1], v[1]),
+                    lambda m, k: f"vsub_n {m[0]} {m[1]} [{m[1]}]", None, "vec"),
+        "dot_same": (1, False, lambda v, k: ar.dot_vectors(v[0], v[0]),
+                     lambda m, k: f"dot {m[0]} {m[0]}", None, "scalar"),
+        "cross_same": (1, False, lambda v, k: ar.cross_cartesian_vectors(v[0], v[0]),
+                       lambda m, k: f"cross_opt {m[0]} {m[0]}", None, "optvec"),
+        "project_same": (1, False, lambda v, k: ar.project_vector(v[0], v[0]),
+                         lambda m, k: f"project {m[0]} {m[0]}",
+                         lambda m, lens: f"dot {m[0]} {m[0]} <> 0" if lens[0] else None, "vec"),
+        "reject_same": (1, False, lambda v, k: ar.reject_cartesian_vector(v[0], v[0]),
+                        lambda m, k: f"reject {m[0]} {m[0]}",
+                        lambda m, lens: f"dot {m[0]} {m[0]} <> 0" if lens[0] else None, "vec"),
     }
 
 
@@ -252,6 +273,14 @@ def spec_identities():
     I.append(("project_parallel_to_target", {"project"}, 2, 0,
         lambda v, k: (not nz(v[1])) or (len(c(v[1])) > 3) or
         veq(cross(ar.project_vector(v[0], v[1]), v[1]), V([]))))
+    I.append(("same_object_operands", {"add_same", "add3_same", "add_aba", "sub_same", "sub_abb", "dot_same", "cross_same",
+        "project_same", "reject_same"}, 2, 0,
+        lambda v, k: veq(add(v[0], v[0]), scale(2, v[0])) and veq(add(v[0], v[0], v[0]), scale(3, v[0])) and
+        veq(add(v[0], v[1], v[0]), add(scale(2, v[0]), v[1])) and veq(sub(v[0], v[0]), V([])) and
+        veq(sub(v[0], v[1], v[1]), add(v[0], scale(-2, v[1]))) and
+        seq(dot(v[0], v[0]), sum((x * x for x in c(v[0])), S.Zero)) and
+        (len(c(v[0])) > 3 or veq(cross(v[0], v[0]), V([]))) and
+        ((not nz(v[0])) or (veq(ar.project_vector(v[0], v[0]), v[0]) and veq(ar.reject_cartesian_vector(v[0], v[0]), V([]))))))
     I.append(("unit_has_magnitude_one", {"unit", "mag"}, 1, 0,
         lambda v, k: (not nz(v[0])) or (seq(mag(ar.vector_unit(v[0])), 1) and
             (len(c(v[0])) > 3 or veq(cross(ar.vector_unit(v[0]), v[0]), V([]))) and
@@ -297,7 +326,7 @@ def generic_tie(ctx):
     for op, spec in ops.items():
         nvec = spec[0]
         shp = shapes(ctx, nvec)
-        if op == "cross":
+        if op in ("cross", "cross_same"):
             shp = [s for s in shp if max(s, default=0) <= 3]   # longer operands are refused (see refusals)
         if ctx.quick and op in ("sub3",):
             shp = [s for s in shp if max(s) - min(s) >= 2 or s in ((3, 3, 3), (1, 1, 1))]
@@ -355,7 +384,7 @@ def concrete_tie(ctx, items):
                 else:
                     vals.append(rand_vec(rng, n))
             kval = sympy.sympify(rng.choice([0, -1, 3, Rational(-2, 5)])) if it["k"] is not None else None
-            needs_nz = {"unit": 0, "project": 1, "reject": 1}.get(it["op"])
+            needs_nz = {"unit": 0, "project": 1, "reject": 1, "project_same": 0, "reject_same": 0}.get(it["op"])
             if needs_nz is not None and it["lens"][needs_nz] and all(x == 0 for x in vals[needs_nz]):
                 skipped += 1
                 continue
@@ -500,6 +529,24 @@ def refusals(ctx):
                 obs, msg = observe(lambda: calls[op](vec(sl, n, "p"), vec(sr, m, "q")))
                 cases.append({"lit": f"(BinCase {op} {shape_lit(sl, n)} {shape_lit(sr, m)}, {obs})", "op": op, "sl": sl[:2],
                     "sr": sr[:2], "lens": (n, m), "obs": obs, "msg": msg})
+    # the SAME Vector object on both sides / several times in the argument list, every system type
+    for op in BINOPS:
+        for s_ in systems[::2] + related[:3]:
+            for n in range(5):
+                v = vec(s_, n, "p")
+                obs, msg = observe(lambda: calls[op](v, v))
+                cases.append({"lit": f"(BinCase {op} {shape_lit(s_, n)} {shape_lit(s_, n)}, {obs})", "op": op, "sl": s_[:2],
+                    "sr": s_[:2], "lens": (n, n), "obs": obs, "msg": msg + " [same Vector object on both sides]"})
+    for s_ in systems[::2]:
+        for n in (0, 2, 3):
+            v, w = vec(s_, n, "p"), vec(s_, 3, "q")
+            for is_add, fn in ((True, ar.add_cartesian_vectors), (False, ar.subtract_cartesian_vectors)):
+                for args, tag in (((v, v, v), "v,v,v"), ((v, w, v), "v,w,v"), ((w, v, v), "w,v,v")):
+                    obs, msg = observe(lambda: fn(*args))
+                    sh = "; ".join(shape_lit(s_, len(a.components)) for a in args)
+                    cases.append({"lit": f"(NaryCase {'true' if is_add else 'false'} [{sh}], {obs})",
+                        "op": ("add" if is_add else "sub") + f"({tag})", "sl": [s_[:2]] * 3, "sr": None,
+                        "lens": tuple(len(a.components) for a in args), "obs": obs, "msg": msg + " [repeated Vector object]"})
     # unary operations and n-ary sums / differences
     for s in systems[::2]:
         for n in range(5):
@@ -575,6 +622,13 @@ Definition model_outcome (c : rcase) : outcome :=
 
 def spec_refusal(c):
     """What the property text demands for this case, or None when it is silent / the observation conforms."""
+    if isinstance(c["sl"], list) and len(c["sl"]) >= 2 and c["op"][:3] in ("add", "sub"):
+        refused = c["obs"] != "Accept"
+        if len({x[0] for x in c["sl"]}) > 1:
+            return None if refused else "a refusal (vectors of different coordinate systems)"
+        if c["sl"][0][1] != 0:
+            return None if refused else "a refusal (sum of non-Cartesian vectors)"
+        return "acceptance (Cartesian vectors of one system)" if refused else None
     if c["op"] not in BINOPS:
         return None
     same = c["sl"][0] == c["sr"][0]
@@ -640,6 +694,175 @@ def equal_vectors_tie(ctx):
 
 # ---------------------------------------------------------------------------------------------
 
+# ---------------------------------------------------------------------------------------------
+# (f) operands are never modified; results do not depend on what was computed before
+# ---------------------------------------------------------------------------------------------
+
+def history(ctx):
+    """Seeded sequences of operations that reuse operands (also the same object in several positions and results of
+    earlier steps).  Before every call the components of every live vector are recorded and compared afterwards
+    (immutability); every result is compared with the result of the same call on FRESH copies of the operands in a state
+    where nothing else was computed with them (no dependence on history).  Only the implementation is involved: the
+    functions themselves are tied to the model on fresh operands by the corr_* lemmas."""
+    ar, Vector, _C = impl()
+    rng = ctx.rng
+    calls = {
+        "add": (2, ar.add_cartesian_vectors), "add3": (3, ar.add_cartesian_vectors), "sub": (2, ar.subtract_cartesian_vectors),
+        "sub3": (3, ar.subtract_cartesian_vectors), "scale": (1, lambda v: ar.scale_vector(Rational(-3, 2), v)),
+        "dot": (2, ar.dot_vectors), "cross": (2, ar.cross_cartesian_vectors), "equal": (2, ar.equal_vectors),
+        "magnitude": (1, ar.vector_magnitude), "unit": (1, ar.vector_unit), "project": (2, ar.project_vector),
+        "reject": (2, ar.reject_cartesian_vector),
+    }
+    nseq, nsteps = ctx.pick(25, 150), 14
+    steps = mutated = diverged = 0
+
+    def comps(v):
+        return tuple(v.components)
+
+    def same_result(x, y):
+        if isinstance(x, Vector) != isinstance(y, Vector):
+            return False
+        if isinstance(x, Vector):
+            bx = [bad_number(a) for a in x.components]
+            if any(bx) or any(bad_number(a) for a in y.components):     # zero target / zero vector: outside the property
+                return bx == [bad_number(a) for a in y.components]
+            return len(x.components) == len(y.components) and pad_eq(x.components, y.components)
+        if isinstance(x, bool) or isinstance(y, bool):
+            return x is y
+        if bad_number(sympy.sympify(x)) or bad_number(sympy.sympify(y)):
+            return bad_number(sympy.sympify(x)) and bad_number(sympy.sympify(y))
+        return is_zero(sympy.sympify(x) - sympy.sympify(y))
+
+    for q in range(nseq):
+        pool = [Vector(rand_vec(rng, rng.randrange(0, 4), nonzero=(j == 0))) for j in range(4)]
+        names = [f"v{j}" for j in range(4)]
+        trace = []
+        for _ in range(nsteps):
+            op = rng.choice(list(calls))
+            arity, fn = calls[op]
+            idx = [rng.randrange(len(pool)) for _ in range(arity)]
+            if arity >= 2 and rng.random() < 0.3:
+                idx[1] = idx[0]                                  # the same object twice
+            if op == "cross" and any(len(pool[i].components) > 3 for i in idx):
+                continue
+            before = [comps(v) for v in pool]
+            args = [pool[i] for i in idx]
+            fresh = [Vector(list(before[i])) for i in idx]
+            call = f"{op}({', '.join(names[i] for i in idx)})"
+            trace.append(call)
+            try:
+                res, err = fn(*args), None
+            except Exception as e:  # pylint: disable=broad-except
+                res, err = None, type(e).__name__
+            try:
+                ref, rerr = fn(*fresh), None
+            except Exception as e:  # pylint: disable=broad-except
+                ref, rerr = None, type(e).__name__
+            steps += 1
+            after = [comps(v) for v in pool]
+            changed = [j for j in range(len(pool)) if before[j] != after[j]]
+            inp = {"sequence": list(trace), "vectors": {names[j]: [str(x) for x in before[j]] for j in range(len(pool))}}
+            if changed and mutated < 6:
+                mutated += 1
+                j = changed[0]
+                ctx.violation(f"C10:immutability:{op}:{'x'.join(str(len(before[i])) for i in idx)}:{'same' if len(set(idx)) < len(idx) else 'distinct'}",
+                    f"{call} modified its operand {names[j]}: {[str(x) for x in before[j]]} -> {[str(x) for x in after[j]]}",
+                    {"kind": "violation", "item": op, "input": dict(inp, call=call), "observed": {names[j]: [str(x) for x in after[j]]},
+                     "expected": "operands are left unchanged (a - b must not turn b into -b)",
+                     "theorem_or_tie": "operand immutability: the model's functions are pure"}, found_input=True)
+            ok = (err == rerr) and (err is not None or same_result(res, ref))
+            if not ok and diverged < 6 and not changed:
+                diverged += 1
+                show = lambda r, e: e if e else (str(list(r.components)) if isinstance(r, Vector) else str(r))
+                ctx.violation(f"C10:history:{op}:{len(trace)}:{q}",
+                    f"{call} after {trace[:-1]} gives {show(res, err)}, on fresh copies of the same operands {show(ref, rerr)}",
+                    {"kind": "violation", "item": op, "input": dict(inp, call=call), "observed": show(res, err), "expected": show(ref, rerr),
+                     "theorem_or_tie": "results depend only on the operands' components"}, found_input=True)
+            for v, b in zip(pool, before):
+                if comps(v) != b:
+                    v.components[:] = list(b)   # restore, so that one defect is not reported through every later step
+            if isinstance(res, Vector) and len(res.components) <= 4 and not any(bad_number(x) for x in res.components):
+                if rng.random() < 0.5:                      # results of earlier steps become operands
+                    k = rng.randrange(1, len(pool))
+                    pool[k] = res
+    ctx.coverage["history_sequences"] = nseq
+    ctx.coverage["history_steps"] = steps
+    ctx.coverage["history_operand_mutations"] = mutated
+    ctx.coverage["history_divergences"] = diverged
+    ctx.evaluated(steps, steps)
+
+
+# ---------------------------------------------------------------------------------------------
+# (g) interpreter modes
+# ---------------------------------------------------------------------------------------------
+
+def interpreter_modes(ctx):
+    """Unequal-length operands through every operation in child interpreters started as `python` and `python -O`
+    (SymPy 1.14 does not import under -OO); every result is proved equal to the model's value on the same literals."""
+    import json  # pylint: disable=import-outside-toplevel
+    import os  # pylint: disable=import-outside-toplevel
+    import subprocess  # pylint: disable=import-outside-toplevel
+    from vp import common  # pylint: disable=import-outside-toplevel
+    probe = str(common.VERIF / "harness" / "vp" / "c10_probe.py")
+    env = dict(os.environ, PYTHONPATH=str(common.REPO), PYTHONDONTWRITEBYTECODE="1")
+    env.pop("PYTHONOPTIMIZE", None)
+    model = {"add": lambda m: f"vsum {m[0]} [{'; '.join(m[1:])}]", "sub": lambda m: f"vsub_n {m[0]} {m[1]} [{'; '.join(m[2:])}]",
+        "dot": lambda m: f"dot {m[0]} {m[1]}", "cross": lambda m: f"cross_opt {m[0]} {m[1]}",
+        "project": lambda m: f"project {m[0]} {m[1]}", "reject": lambda m: f"reject {m[0]} {m[1]}",
+        "magnitude": lambda m: f"mag {m[0]}", "unit": lambda m: f"unit {m[0]}", "scale": lambda m: f"vscale (-3) {m[0]}"}
+    lemmas, meta = [], {}
+    for flags in ([], ["-O"]):
+        mode = ("python " + " ".join(flags)).strip()
+        tag = "O" if flags else "dbg"
+        how = f"PYTHONPATH={common.REPO} {common.PYTHON} {' '.join(flags)} {probe}"
+        try:
+            r = subprocess.run([common.PYTHON, *flags, probe], capture_output=True, text=True, timeout=600, env=env, check=False)
+            data = json.loads(r.stdout)
+        except Exception as e:  # pylint: disable=broad-except
+            ctx.violation(f"C10:mode:{mode}:probe-failed", f"the probe did not run under `{mode}`: {type(e).__name__}: {e}"[:300],
+                {"kind": "broken-tie", "mode": mode, "how": how, "stderr": (r.stderr[-800:] if "r" in locals() else "")}, found_input=False)
+            continue
+        for i, c in enumerate(data["cases"]):
+            op, operands, res = c["op"], c["operands"], c["result"]
+            call = f"{op}({', '.join(map(str, operands))})"
+            key = f"C10:mode:{mode}:{call}"
+            rep = {"kind": "violation", "item": op, "input": {"mode": mode, "op": op, "operands": operands}, "how": how,
+                "observed": res, "theorem_or_tie": "child-interpreter result = Model/CartVec.v on the same literal operands"}
+            if "error" in res:
+                ctx.violation(key, f"under `{mode}` {call} raises {res['error']}: {res.get('message', '')}; Cartesian operands of one system "
+                    "with at most three components must be accepted", dict(rep, expected="a result"), found_input=True)
+                continue
+            if op == "equal":
+                want = pad_eq([sympy.sympify(x) for x in operands[0]], [sympy.sympify(x) for x in operands[1]])
+                ql = lambda v: "[" + "; ".join(qx.q_lit(Fraction(x)) for x in v) + "]"
+                name = f"mode_{tag}_{i}_equal"
+                lemmas.append(coqrun.Lemma(name, f"veqbQ {ql(operands[0])}%Q {ql(operands[1])}%Q = {'true' if res['bool'] else 'false'}",
+                    "vm_compute. reflexivity.", call))
+                meta[name] = (key, call, mode, dict(rep, expected=want), f"{res['bool']} (equality up to zero padding is {want})")
+                continue
+            mlists = ["[" + "; ".join(sx.zlit(int(x)) for x in o) + "]" for o in operands]
+            rc = sx.RCtx(atoms=False)
+            if "vector" in res:
+                terms = [rc.term(sympy.sympify(t)) for t in res["vector"]]
+                lhs = ("Some " if op == "cross" else "") + coq_list(terms)
+                shown = [str(sympy.sympify(t)) for t in res["vector"]]
+            else:
+                lhs = rc.term(sympy.sympify(res["scalar"]))
+                shown = str(sympy.sympify(res["scalar"]))
+            name = f"mode_{tag}_{i}_{op}"
+            lemmas.append(coqrun.Lemma(name, f"{lhs} = {model[op](mlists)}", "cv_corr.", call))
+            meta[name] = (key, call, mode, rep, shown)
+    res = coqrun.prove_lemmas(ctx, "modes", PREAMBLE_R + "From Coq Require Import QArith.\nLocal Open Scope R_scope.\n", lemmas,
+        per_file=10, timeout=600)
+    ctx.obligations(len(res), sum(v == "ok" for v in res.values()))
+    for name, status in res.items():
+        if status != "ok":
+            key, call, mode, rep, shown = meta[name]
+            ctx.violation(key, f"under `{mode}` {call} = {shown}, which is not the model's value (missing components count as zero)",
+                dict(rep, coq=status[-400:]), found_input=True)
+    ctx.coverage["interpreter_mode_cases"] = len(lemmas)
+
+
 def run(ctx):
     ctx.level = "proof"
     ctx.static(STATIC)
@@ -656,6 +879,8 @@ def run(ctx):
     serialiser_selfcheck(ctx, items)
     refusals(ctx)
     equal_vectors_tie(ctx)
+    history(ctx)
+    interpreter_modes(ctx)
     ctx.coverage["exhaustive"] = True
     ctx.coverage["rule"] = ("generic tie: every operation x every length combination 0..3 (thorough: 0..4 where the code allows) "
         "on fresh symbols, one kernel-checked lemma each; concrete instantiations: 5 per shape (all-zero, negatives, 3 seeded from "
